@@ -245,5 +245,8 @@ def run(ctx):
     n4 = bitfield.check(rep, F)
     n5 = infinity_direction(rep, F)
     rep.floor('float converters checked for the direction of infinity', n5, 1)
+    from rules import floatpath
+    n6 = floatpath.check(rep, F)
+    rep.floor('to_f64 float-arithmetic rule', n6, 1)
     rep.floor('IEEE-754 field obligations', n4, 12)
     rep.extra['exhaustive_table'] = True
